@@ -137,20 +137,44 @@ def tr_tune(base):
     if len(t) != 1:
         raise Unrecognised("MCMCOperator.tune missing")
     b = body_wo_doc(t[0])
-    if len(b) != 1 or not isinstance(b[0], ast.If) or b[0].orelse:
-        raise Unrecognised("MCMCOperator.tune: not a single if")
-    test = b[0].test
-    if not (isinstance(test, ast.UnaryOp) and isinstance(test.op, ast.Not) and dotted(test.operand) == "self._disable_adaptation"):
-        raise Unrecognised("MCMCOperator.tune: condition " + ast.unparse(test))
-    inner = [s for s in b[0].body if not isinstance(s, ast.Assert)]
-    if len(inner) != 2 or not isinstance(inner[0], ast.Assign) or not isinstance(inner[1], ast.Assign):
-        raise Unrecognised("MCMCOperator.tune: body shape")
-    var = dotted(inner[0].targets[0])
-    if dotted(inner[1].targets[0]) != "self.adaptable_parameter" or dotted(inner[1].value) != var:
+
+    def is_disabled(e):
+        return dotted(e) is not None and "disable" in dotted(e)
+
+    # two guard styles: `if not disabled: <update>`  or  `if disabled: return` followed by the update
+    if len(b) == 1 and isinstance(b[0], ast.If) and not b[0].orelse and isinstance(b[0].test, ast.UnaryOp) \
+            and isinstance(b[0].test.op, ast.Not) and is_disabled(b[0].test.operand):
+        stmts = b[0].body
+    elif b and isinstance(b[0], ast.If) and not b[0].orelse and is_disabled(b[0].test) and len(b[0].body) == 1 \
+            and isinstance(b[0].body[0], ast.Return) and b[0].body[0].value is None:
+        stmts = b[1:]
+    else:
+        raise Unrecognised("MCMCOperator.tune: guard on the adaptation switch not recognised")
+    stmts = [s_ for s_ in stmts if not isinstance(s_, ast.Assert)]
+    # local assignments are inlined (by role: whatever ends up assigned to self.adaptable_parameter)
+    local = {}
+
+    class Inline(ast.NodeTransformer):
+        def visit_Name(self, node):
+            return local.get(node.id, node) if isinstance(node.ctx, ast.Load) else node
+
+    final = None
+    for st_ in stmts:
+        if not (isinstance(st_, ast.Assign) and len(st_.targets) == 1):
+            raise Unrecognised("MCMCOperator.tune: statement " + ast.unparse(st_))
+        value = Inline().visit(ast.parse(ast.unparse(st_.value), mode="eval").body)
+        tgt = st_.targets[0]
+        if isinstance(tgt, ast.Name):
+            local[tgt.id] = value
+        elif dotted(tgt) == "self.adaptable_parameter" and final is None:
+            final = value
+        else:
+            raise Unrecognised("MCMCOperator.tune: assignment to " + ast.unparse(tgt))
+    if final is None:
         raise Unrecognised("MCMCOperator.tune: does not assign the new value to adaptable_parameter")
     names = {"self.adaptable_parameter": "adaptable", t[0].args.args[1].arg: "acc",
              "self.target_acceptance_probability": "target", "self._adapt_count": "count"}
-    rm = tr_expr(inner[0].value, names)
+    rm = tr_expr(final, names)
     # the property setter: set_adaptable_parameter(value); _adapt_count += 1
     st = [g for g in find_methods(cnode, "adaptable_parameter")
           if any((dotted(d) or "").endswith("adaptable_parameter.setter") for d in g.decorator_list)]
